@@ -8,7 +8,10 @@ pycaption state, results so far). After every operation:
   (1) a read's canonical result (languages in order, times, nodes, styles, layouts) equals the result of the same read
       in a pristine interpreter (hash seed 0);
   (2) every earlier result not targeted by the operation is unchanged (isolation);
-  (3) the process-global state is unchanged.
+  (3) the newest result shares no mutable container with an earlier result or with process-global state (a shared
+      object is actually mutated through the new result to demonstrate the interference);
+  (4) the process-global state is re-digested; if the history changed it, every read of the menu is probed in the
+      polluted process against the pristine results (a change that alters no read is counted, not reported).
 Repeated under several PYTHONHASHSEED values.
 """
 import json
@@ -69,6 +72,9 @@ def doc_pool():
         docs.dfxp_doc([("en", [('begin="1s" end="2s" region="r1" style="s1"', 'a<br/><span region="r2" tts:fontStyle="italic">b</span>'), ('begin="3s" dur="1s" region="r2"', "c &amp; d")]), ("fr", [('begin="1s" end="2s"', "e")])], head=head),
         docs.dfxp_doc([("de", [('begin="5s" end="6s"', "plain")])]),
         docs.dfxp_doc([("en", [('begin="1s" end="2s"', "ok"), ('end="2s"', "no begin: reader raises")])]),
+        # two documents with textually identical <region> elements whose referenced style differs, and a root extent
+        docs.dfxp_doc([("en", [('begin="1s" end="2s" region="ra"', "same region markup")])], head='<styling><style xml:id="rs" tts:origin="10% 20%" tts:extent="30% 40%"/></styling><layout><region xml:id="ra" style="rs"/></layout>'),
+        docs.dfxp_doc([("en", [('begin="1s" end="2s" region="ra"', "same region markup"), ('begin="3s" end="4s"', "no region")])], head='<styling><style xml:id="rs" tts:origin="50% 60%" tts:textAlign="right"/></styling><layout><region xml:id="ra" style="rs"/></layout>', tt_attrs=' tts:extent="640px 480px"'),
     ]
     p["sami"] = [
         docs.sami_doc([(1000, [("en-US", "one"), ("fr-FR", "un")]), (2000, [("en-US", "&nbsp;")]), (2500, [("fr-FR", "deux<br/><i>d</i>")]), (3000, [("en-US", "three")])], ["en-US", "fr-FR"], extra_css=".ENCC { margin-left: 2%; text-align: center; }"),
@@ -98,7 +104,7 @@ READ_OPTS = {
     "sami": [{}],
     "scc": [{}, {"read": {"offset": 1, "simulate_roll_up": True}}],
 }
-EDITS = ["add_style", "caption_style", "style_dict", "append_caption", "node_text", "set_layout"]
+EDITS = ["add_style", "caption_style", "style_dict", "append_caption", "node_text", "set_layout", "style_node_content"]
 WRITES = ["DFXPWriter", "SAMIWriter", "WebVTTWriter"]
 
 
@@ -168,6 +174,12 @@ def do_edit(cs, kind):
             if n.type_ == 1:
                 n.content += "!"
                 break
+    elif kind == "style_node_content":
+        for c in caps:
+            for n in c.nodes:
+                if n.type_ == 2 and isinstance(n.content, dict):
+                    n.content["injected"] = True
+                    return
     elif kind == "set_layout":
         cs.set_layout_info(lang, Layout(origin=Point(Size(1, UnitEnum.PERCENT), Size(2, UnitEnum.PERCENT))))
 
@@ -292,10 +304,80 @@ def check_history(hist):
             else:
                 cls = "after:" + op_class(hist[-2])
             v.append((f"C10/read-differs-from-pristine/{fmt}/{cls}", {"got": res, "pristine": ref[:2], "pristine_summary": ref[2]}))
+    if hist[-1][0] == "read" and res and res[0] == "ok":
+        v += aliasing(w, hist)
     g1 = canon.global_state()
-    if g1 != g0:
-        v.append((f"C10/process-global-state-changed-by/{op_class(hist[-1])}/" + "+".join(canon.diff_state(g0, g1))[:100], {"changed": canon.diff_state(g0, g1)}))
+    if g1 != g0 and not v:
+        # process-global state changed: not a violation by itself (it could be a harmless cache); probe every read
+        # of the menu in this process against the pristine results
+        v += probe_reads(hist, canon.diff_state(g0, g1))
+        if not v:
+            v.append(("_benign-global-change", None))
     return v, w.state(g1), w, res, g1
+
+
+_GLOBAL_MUT = None
+
+
+def aliasing(w, hist):
+    """Isolation by construction: the newest result must not share a mutable container with an earlier result or with
+    process-global state. A shared object is then actually mutated through the new result to demonstrate the
+    interference (the earlier result changes / the same read in this process no longer equals the pristine read)."""
+    from mc import canon
+
+    global _GLOBAL_MUT
+    if _GLOBAL_MUT is None:
+        _GLOBAL_MUT = {}
+        for r in canon.global_roots():
+            _GLOBAL_MUT.update(canon.mutable_objects(r))
+    new = w.results[-1]
+    mine = canon.mutable_objects(new[3])
+    out = []
+    for k, old in enumerate(w.results[:-1]):
+        theirs = canon.mutable_objects(old[3])
+        shared = [i for i in mine if i in theirs]
+        if shared:
+            before = snapshot(old[3])
+            _poke(mine[shared[0]])
+            if snapshot(old[3]) != before:
+                out.append((f"C10/isolation/results-share-a-mutable-object/{new[0]}+{old[0]}/{type(mine[shared[0]]).__name__}", {"result_index": k, "shared_objects": len(shared)}))
+            return out
+    shared = [i for i in mine if i in _GLOBAL_MUT]
+    if shared:
+        obj = mine[shared[0]]
+        _poke(obj)
+        fmt, di, opt, _ = new
+        res2, _cs = do_read(reader_cls(fmt)(**opt.get("init", {})), fmt, di, opt)
+        ref = pristine(fmt, di, opt)
+        if list(res2) != ref[:2]:
+            out.append((f"C10/isolation/result-shares-a-mutable-object-with-process-state/{fmt}/{type(obj).__name__}", {"shared_objects": len(shared), "reread": res2, "pristine": ref[:2]}))
+    return out
+
+
+def _poke(obj):
+    if isinstance(obj, dict):
+        obj["__verif_poke__"] = True
+    elif isinstance(obj, list):
+        obj.append(obj[0] if obj else None)
+    elif isinstance(obj, set):
+        obj.add("__verif_poke__")
+    else:
+        setattr(obj, "verif_poke", True)
+
+
+def probe_reads(hist, changed_keys):
+    out = []
+    w = World()
+    for op in w.enabled():
+        if op[0] != "read":
+            continue
+        _, fmt, di, opt = op
+        res, _cs = do_read(reader_cls(fmt)(**opt.get("init", {})), fmt, di, opt)
+        ref = pristine(fmt, di, opt)
+        if list(res) != ref[:2]:
+            out.append((f"C10/read-differs-from-pristine/{fmt}/after-history-that-changed-process-state:{op_class(hist[-1])}", {"got": res, "pristine": ref[:2], "changed": changed_keys[:6]}))
+            break
+    return out
 
 
 _BASE = None
@@ -303,7 +385,8 @@ _BASE = None
 
 def restore_globals():
     """after a pollution was reported, the worker's pycaption modules are reloaded so that later histories start clean"""
-    global _BASE
+    global _BASE, _GLOBAL_MUT
+    _GLOBAL_MUT = None
     for m in [m for m in sys.modules if m == "pycaption" or m.startswith("pycaption.")]:
         del sys.modules[m]
     import pycaption  # noqa: F401
@@ -324,9 +407,13 @@ def explore(acc, first_ops, depth, states_out, reduced=False):
             acc.traces += 1
             case = {"hist": [list(o) for o in hist], "_env": {"PYTHONHASHSEED": os.environ.get("PYTHONHASHSEED", "0")}}
             acc.case((hist, os.environ.get("PYTHONHASHSEED")), len(hist) >= 2, res, {"history": [list(o) for o in hist], "last_result": res} if len(hist) == depth else None)
+            benign = [x for x in v if x[0] == "_benign-global-change"]
+            v = [x for x in v if x[0] != "_benign-global-change"]
+            if benign:
+                acc.count("histories_that_changed_global_state_but_no_read")
             for sig, det in v:
                 acc.violation(sig, case, det)
-            if any("process-global" in s for s, _ in v):
+            if v or benign:
                 restore_globals()
             states_out.add(st)
             if st in seen or v:
@@ -394,4 +481,4 @@ def replay(case):
             return [{"sig": "_replay-error", "detail": (r.stdout + r.stderr)[-500:]}]
     hist = [tuple(o) for o in case["hist"]]
     v, _, _, _, _ = check_history(hist)
-    return [{"sig": s, "detail": d} for s, d in v]
+    return [{"sig": s, "detail": d} for s, d in v if s != "_benign-global-change"]
